@@ -113,6 +113,9 @@ def _transformers():
         ("SqrtCZGaugeTransformer", lambda c, ctx: cirq.transformers.SqrtCZGaugeTransformer(c, context=_nodeep(ctx), prng=np.random.default_rng(9))),
         ("SqrtISWAPGaugeTransformer", lambda c, ctx: cirq.transformers.SqrtISWAPGaugeTransformer(c, context=_nodeep(ctx), prng=np.random.default_rng(10))),
         ("SpinInversionGaugeTransformer", lambda c, ctx: cirq.transformers.SpinInversionGaugeTransformer(c, context=_nodeep(ctx), prng=np.random.default_rng(11))),
+        ("CPhaseGaugeTransformer", lambda c, ctx: cirq.transformers.gauge_compiling.CPhaseGaugeTransformer(c, context=_nodeep(ctx), prng=np.random.default_rng(12))),
+        ("IdleMomentsGauge(1, pauli, both ends)", lambda c, ctx: cirq.transformers.gauge_compiling.IdleMomentsGauge(1, gauges="pauli", gauge_beginning=True, gauge_ending=True)(c, context=_nodeep(ctx), rng_or_seed=13)),
+        ("IdleMomentsGauge(2, clifford)", lambda c, ctx: cirq.transformers.gauge_compiling.IdleMomentsGauge(2, gauges="clifford")(c, context=_nodeep(ctx), rng_or_seed=14)),
         ("index_tags+remove_tags", lambda c, ctx: cirq.remove_tags(cirq.index_tags(c, context=ctx, target_tags={"ignore"}), context=ctx, remove_if=lambda t: False)),
         ("unroll_circuit_op(all)", lambda c, ctx: cirq.unroll_circuit_op(c, deep=ctx.deep, tags_to_check=None)),
         ("unroll_circuit_op_greedy_earliest(all)", lambda c, ctx: cirq.unroll_circuit_op_greedy_earliest(c, deep=ctx.deep, tags_to_check=None)),
@@ -625,6 +628,82 @@ def standin_parameterized_circuits(tier, seed):
                 cases=cases, distinct=cases, failures=len(fails), exhaustive=False, _fails=fails[:4])
 standin_parameterized_circuits.prop = "C06"
 STANDINS.append(standin_parameterized_circuits)
+
+
+def standin_idle_gauges(tier, seed):
+    """IdleMomentsGauge on circuits with long idle stretches: echo patterns (two idle windows sharing one boundary gate), windows bounded by
+    two-qubit gates, measurements, resets and symbolic gates, the ends of the circuit, ignored tags; every gauge family and several seeds"""
+    import cirq
+    import sympy
+    from cirq.transformers.gauge_compiling import IdleMomentsGauge
+
+    rng = random.Random(seed + 9)
+    cases, fails = 0, []
+    qs = cirq.LineQubit.range(3)
+    one = [cirq.H, cirq.X ** 0.5, cirq.T, cirq.Y ** 0.25, cirq.S, cirq.X]
+
+    def gen(with_measure):
+        n = rng.randrange(5, 10)
+        moments = [[] for _ in range(n)]
+        busy = qs[2]
+        for i in range(n):
+            moments[i].append(rng.choice(one)(busy))       # keeps every moment non-empty
+        for q in qs[:2]:
+            for i in rng.sample(range(n), rng.randrange(1, 4)):   # sparse activity: long idle windows in between
+                r = rng.random()
+                if r < 0.6:
+                    op = rng.choice(one)(q)
+                    moments[i].append(op.with_tags("ignore") if rng.random() < 0.15 else op)
+                elif r < 0.75 and with_measure:
+                    moments[i].append(rng.choice([cirq.X(q) ** sympy.Symbol("a"), cirq.reset(q)]))
+                elif q == qs[0] and not any(qs[1] in o.qubits for o in moments[i]):
+                    moments[i].append(cirq.CZ(qs[0], qs[1]))
+                    moments[i] = [o for o in moments[i] if o.qubits != (qs[1],)]
+        if with_measure:
+            moments.append([cirq.measure(qs[0], key="m"), cirq.measure(qs[1], key="k")])
+        try:
+            return cirq.Circuit.from_moments(*moments)
+        except ValueError:
+            return None
+
+    configs = [dict(min_length=1, gauges="pauli"), dict(min_length=2, gauges="clifford"), dict(min_length=2, gauges="inv_clifford", gauge_beginning=True), dict(min_length=3, gauges="pauli", gauge_ending=True),
+               dict(min_length=1, gauges=[cirq.X, cirq.S, cirq.H], gauge_beginning=True, gauge_ending=True), dict(min_length=2, gauges=[cirq.Y ** 0.5])]
+    for it in range(25 if tier == "quick" else 300):
+        with_measure = it % 3 == 2
+        c = gen(with_measure)
+        if c is None:
+            continue
+        for cfg in configs:
+            for sd in (0, 1, 2) if tier == "quick" else range(6):
+                cases += 1
+                try:
+                    out = IdleMomentsGauge(**cfg)(c, context=cirq.TransformerContext(tags_to_ignore=("ignore",)), rng_or_seed=sd)
+                except Exception as ex:
+                    fails.append(dict(args=dict(config=repr(cfg), seed=sd, circuit=repr(c)), failed="idle-gauge-raised", clause=f"IdleMomentsGauge raised {type(ex).__name__}: {ex}"))
+                    continue
+                a_, b_ = (cirq.resolve_parameters(x, {"a": 0.37}) for x in (c, out))
+                try:
+                    why = _same_meaning(a_, b_, list(qs), with_measure)
+                except NotImplementedError:
+                    continue
+                if why:
+                    fails.append(dict(args=dict(config=repr(cfg), seed=sd, circuit=repr(c), output=repr(out)[:1500]), failed="idle-gauge-meaning", clause=f"IdleMomentsGauge({cfg}): {why}"))
+                kept_in = [o for o in c.all_operations() if "ignore" in o.tags]
+                if any(o not in list(out.all_operations()) for o in kept_in):
+                    fails.append(dict(args=dict(config=repr(cfg), seed=sd, circuit=repr(c)), failed="idle-gauge-ignored-tag", clause="an operation carrying an ignored tag was changed"))
+        seen, uniq = set(), []
+        for f_ in fails:
+            if f_["failed"] not in seen:
+                seen.add(f_["failed"])
+                uniq.append(f_)
+        fails = uniq
+        if len(fails) >= 3:
+            break
+    return dict(function=F + "/gauge_compiling/idle_moments_gauge.py:IdleMomentsGauge", case="idle-gauges",
+                bound="seeded 3-qubit circuits of 5-9 moments with sparse activity on two qubits (echo patterns, CZ / measurement / reset / symbolic boundaries, ignored tags) x 6 configurations x 3-6 seeds",
+                cases=cases, distinct=cases, failures=len(fails), exhaustive=False, _fails=fails[:3])
+standin_idle_gauges.prop = "C06"
+STANDINS.append(standin_idle_gauges)
 
 def standin_subcircuit_handling(tier, seed):
     """sub-circuit operations (tagged to be ignored or not, nested, repeated) under deep=False / deep=True: tagged operations are
